@@ -93,10 +93,11 @@ MUT = {
     "        if not isinstance(error, (int, float)):\n            raise TypeError(\"Cannot assign a {} to the error!\".format(type(error).__name__))\n        if error < 0:\n            raise ValueError(\"The error must be a positive real number!\")\n        self._error = error\n"),
  # ---------------- C12 / C13
  "c13-power-printer-fix-reverted": ("C08", UN,
-    "    if not isinstance(power, Rational):\n        power = float(power)  # e.g. a numpy.float32 exponent, which Fraction() does not accept\n", ""),
+    "        (unit, power if isinstance(power, (Rational, float)) else float(power))\n",
+    "        (unit, power)\n"),
  "c13-power-printer-float32-rounds": ("C13", UN,
-    "        power = float(power)  # e.g. a numpy.float32 exponent, which Fraction() does not accept\n",
-    "        power = round(float(power), 1) if type(power).__name__ == 'float32' else float(power)\n"),
+    "        (unit, power if isinstance(power, (Rational, float)) else float(power))\n",
+    "        (unit, power if isinstance(power, (Rational, float)) else round(float(power), 1))\n"),
  "c13-fraction-power-printed-as-float": ("C13", UN,
     "    fraction = Fraction(power).limit_denominator(10)\n",
     "    fraction = Fraction(power).limit_denominator(10) if not isinstance(power, Fraction) else Fraction(round(float(power)))\n"),
